@@ -38,6 +38,8 @@ var errDropExceptions = map[string]string{
 	"BloomSearchEngine.abortFileWriter:io.WriteCloser.Close": "cleanup of a file that already failed: the caller reports its original error and the pointer is tombstoned right after (C06.R2 checks that every failure exit passes through here)",
 }
 
+var bufferedWriterCalls = map[string]bool{"(*bufio.Writer).Flush": true, "(*bufio.Writer).Write": true, "(*bufio.Writer).WriteString": true, "(*bufio.Writer).WriteByte": true}
+
 var storeMustCheck = map[string]bool{"DataStore.CreateFile": true, "DataStore.OpenFile": true, "MetaStore.Update": true}
 
 // c06R5: no error of the file-writing path is dropped or overwritten unchecked.
@@ -94,6 +96,9 @@ func c06R5(w *World, r *Report) {
 				if g := w.staticCallee(&c.Call); g != nil && writerFns[g] {
 					hit = true
 				}
+				if bufferedWriterCalls[w.calleeName(&c.Call)] {
+					hit = true
+				}
 			})
 			if hit {
 				writerFns[fn] = true
@@ -116,6 +121,9 @@ func c06R5(w *World, r *Report) {
 			switch {
 			case c.Call.IsInvoke() && (c.Call.Method.Name() == "Write" || c.Call.Method.Name() == "Close") && isWriterIface(c.Call.Value):
 				sites[c] = w.calleeName(&c.Call)
+			case bufferedWriterCalls[w.calleeName(&c.Call)]:
+				// a buffering writer defers the real write: its Flush (and Write, once the buffer is full) carries the store's error
+				sites[c] = w.calleeName(&c.Call)
 			case storeMustCheck[w.calleeName(&c.Call)]:
 				// the store calls a file's existence and visibility depend on
 				// (TombstoneFile is cleanup: its error is reported where the
@@ -125,6 +133,25 @@ func c06R5(w *World, r *Report) {
 				if g := w.staticCallee(&c.Call); g != nil && writerFns[g] {
 					sites[c] = w.calleeName(&c.Call)
 				}
+			}
+		})
+		// a deferred write-effect call discards its error by construction
+		eachInstr(fn, func(in ssa.Instruction) {
+			d, ok := in.(*ssa.Defer)
+			if !ok || !returnsErr(&d.Call) {
+				return
+			}
+			n := w.calleeName(&d.Call)
+			isW := d.Call.IsInvoke() && (d.Call.Method.Name() == "Write" || d.Call.Method.Name() == "Close") && isWriterIface(d.Call.Value)
+			if g := w.staticCallee(&d.Call); g != nil && writerFns[g] {
+				isW = true
+			}
+			if bufferedWriterCalls[n] {
+				isW = true
+			}
+			if isW {
+				nSites++
+				r.bad(rule, fmt.Sprintf("%s:deferred:%s", name, n), w.instrPos(in), "the error of "+n+" is discarded by a defer: when that call is what carries the bytes to the store (a buffered writer's Flush, a publishing Close), its failure is swallowed and the file is acknowledged although part of it was never written")
 			}
 		})
 		if len(sites) == 0 {
